@@ -202,7 +202,7 @@ def run(ctx):
     ctx.audit("Babylon.Properties.C10")
     if not ctx.quick:
         ctx.leanchecker(["Babylon.GC.Model", "Babylon.GC.LemmasAll", "Babylon.GC.LiveMain", "Babylon.GC.LiveRegions",
-                         "Babylon.GC.LiveEnabled", "Babylon.Properties.C10"])
+                         "Babylon.GC.LiveEnabled", "Babylon.GC.View", "Babylon.Properties.C10"])
     drv = ctx.driver("drv_C10")
     exe, log = build_vrt_exe("c10", SRCS, repo_cpp=REPO_CPP)
     if exe is None:
